@@ -51,6 +51,8 @@ STRUCT_RESP = doc("VerifH_CatalogStructure", {"K": 4, "MENU": 3}, {"K": 5, "MENU
 CROSSINC = doc("VerifH_CrossProjectInclude", {"K": 1}, {"K": 2}, stubsets=["location", "vfs-files"])
 MARSHAL = {"pkg": "catalog", "fn": "VerifH_MarshalStable", "quick": {"CROSS": 1}, "thorough": {"CROSS": 1},
            "stubs": {"encoding/json.Marshal": "verifStubJSONMarshal"}, "replay_repeat": 3}
+MSHAPE = {"pkg": "catalog", "fn": "VerifH_MarshalShape", "quick": {}, "thorough": {}, "instances": [{"T": t} for t in range(4)],
+          "instances_thorough": [{"T": 4}], "stubs": {"encoding/json.Marshal": "verifStubJSONMarshalLogged"}}
 FIXTURES = {"pkg": "core", "fn": "VerifH_Fixture", "quick": {}, "thorough": {}, "full_schema_lib": True,
             "fixtures": 256, "fixtures_thorough": -1, "fixture_max_bytes": 20000, "step_budget": 60000000, "tolerated_inconclusive": ["budget: step budget"]}
 PGRAPH = doc("VerifH_PasteGraph", {"M": 3}, {"M": 4}, budget_violation=True, depth_budget=300)
@@ -174,11 +176,13 @@ CHECKS = {
    {"pkg": "catalog", "fn": "VerifH_OrderedMaps", "quick": {}, "thorough": {}, "instances": [{"T": t} for t in range(5)], "lock_monitor": True, "no_replay_kinds": ["lock"], "no_replay_asserts": ["C16.ordmap.update-callback-under-write-lock"]},
    {"pkg": "catalog", "fn": "VerifH_IdInjective", "quick": {"N": 3}, "thorough": {"N": 4}},
    STRUCT, STRUCT_TAGS, STRUCT_RESP,
+   MSHAPE,
   ],
-  "assumptions": ["ordered collections: pre-state is any state with at most 3 entries satisfying the representation invariant; one step is inductive for histories of any length",
+  "assumptions": ["generated MarshalJSON of the ordered collections (Servers, UserTypes, UserRules, Tags, Interactions; 0..3 entries, thorough 4): with encoding/json.Marshal replaced by a stub returning arbitrary bytes, the result is exactly '{' k1 ':' v1 ',' ... '}' over the stub's answers in insertion order, so it is a valid JSON object with one member per entry whenever keys and values render to valid JSON",
+                  "ordered collections: pre-state is any state with at most 3 entries satisfying the representation invariant; one step is inductive for histories of any length",
                   "collection keys are 1-byte strings (the code never looks inside a key)"],
   "not_decided": ["validity of the JSON produced by encoding/json (not encoded): UTF-8, equality of indented and compact forms, duplicate keys inside struct-generated objects",
-                  "existence of every used user type / enum named by schema-library ASTs", "tag/interaction cross references, format/notation (pipeline harness pending)"],
+                  "existence of every used user type / enum named by schema-library ASTs"],
  },
  "C16": {
   "title": "Concurrency (reduced to lock discipline and sequential non-interference)",
